@@ -18,14 +18,14 @@ const SUBTYPE_NAMES: [&str; 9] = ["Obj", "Obj2", "Iface", "Iface2", "Uni", "Int"
 
 fn depth_a(t: Tier) -> u32 {
     if t == Tier::Quick {
-        3
+        4
     } else {
         6
     }
 }
 fn depth_bc(t: Tier) -> u32 {
     if t == Tier::Quick {
-        2
+        3
     } else {
         4
     }
